@@ -51,6 +51,158 @@ Proof.
 Qed.
 
 (* ------------------------------------------------------------------------------------------ *)
+(* 2. blob.Cache(0, n): coverage *)
+
+Lemma memZ_In : forall x l, memZ x l = true <-> In x l.
+Proof.
+  intros x l. unfold memZ. rewrite existsb_exists. split.
+  - intros [y [Hy He]]. apply Z.eqb_eq in He. subst. exact Hy.
+  - intro H. exists x. split; [exact H|apply Z.eqb_refl].
+Qed.
+
+Lemma walk_chunks_in : forall fuel cs size i e k,
+  0 < cs -> 0 <= k -> (Z.to_nat k < fuel)%nat -> i + k * cs <= e -> i + k * cs < size ->
+  In (i + k * cs, Z.min (i + k * cs + cs - 1) (size - 1)) (walk_chunks fuel cs size i e).
+Proof.
+  induction fuel as [|f IH]; intros cs size i e k Hcs Hk Hf He Hs; [lia|].
+  cbn [walk_chunks].
+  assert (Hi : i <= e /\ i < size) by nia.
+  replace ((i <=? e) && (i <? size)) with true
+    by (symmetry; apply andb_true_iff; split; [apply Z.leb_le|apply Z.ltb_lt]; lia).
+  destruct (Z.eq_dec k 0) as [E|E].
+  - subst k. left. f_equal; lia.
+  - right. replace (i + k * cs) with ((i + cs) + (k - 1) * cs) by lia.
+    apply IH; try lia; nia.
+Qed.
+
+Lemma fold_min_le : forall (l : list (Z * Z)) a, fold_left (fun a x => Z.min a (fst x)) l a <= a
+  /\ forall x, In x l -> fold_left (fun a x => Z.min a (fst x)) l a <= fst x.
+Proof.
+  induction l as [|y t IH]; intros a; cbn [fold_left]; [split; [lia|intros x []]|].
+  destruct (IH (Z.min a (fst y))) as [A B]. split; [lia|].
+  intros x [E|Hx]; [subst; lia|apply B; exact Hx].
+Qed.
+
+Lemma fold_max_ge : forall (l : list (Z * Z)) a, a <= fold_left (fun a x => Z.max a (snd x)) l a
+  /\ forall x, In x l -> snd x <= fold_left (fun a x => Z.max a (snd x)) l a.
+Proof.
+  induction l as [|y t IH]; intros a; cbn [fold_left]; [split; [lia|intros x []]|].
+  destruct (IH (Z.max a (snd y))) as [A B]. split; [lia|].
+  intros x [E|Hx]; [subst; lia|apply B; exact Hx].
+Qed.
+
+(* cacheAt: a chunk of the walked region that is not cached lies inside the single request *)
+Lemma cache_at_covers : forall cs size have off sz c,
+  In c (walk_chunks (chunk_fuel cs (gfloor off cs) (gceil (off + sz - 1) cs - 1)) cs size (gfloor off cs) (gceil (off + sz - 1) cs - 1)) ->
+  memZ (fst c) have = false ->
+  exists r, In r (cache_at cs size have off sz) /\ fst r <= fst c /\ snd c <= fst r + snd r - 1.
+Proof.
+  intros cs size have off sz c Hc Hm. unfold cache_at.
+  set (w := walk_chunks _ cs size _ _) in *.
+  assert (Hin : In c (filter (fun c0 => negb (memZ (fst c0) have)) w)).
+  { apply filter_In. split; [exact Hc|rewrite Hm; reflexivity]. }
+  destruct (filter (fun c0 => negb (memZ (fst c0) have)) w) as [|c0 t] eqn:E; [destruct Hin|].
+  eexists. split; [left; reflexivity|]. cbn [fst snd].
+  destruct (fold_min_le t (fst c0)) as [A B]. destruct (fold_max_ge t (snd c0)) as [C D].
+  destruct Hin as [E1|Hin]; [subst c0; lia|].
+  specialize (B c Hin). specialize (D c Hin). lia.
+Qed.
+
+Lemma quot_nonneg : forall a b, 0 <= a -> 0 < b -> Z.quot a b = a / b.
+Proof. intros. apply Z.quot_div_nonneg; lia. Qed.
+
+(* blob.Cache(0, n), prefetch chunk size <= chunk size: every byte of [0, n) inside the blob is in a cached chunk or in the request *)
+Lemma cache_small_covers : forall cs size have n x,
+  0 < cs -> 0 <= x < n -> x < size ->
+  memZ (x / cs * cs) have = true
+  \/ exists r, In r (cache_at cs size have 0 n) /\ fst r <= x /\ x <= fst r + snd r - 1.
+Proof.
+  intros cs size have n x Hcs Hx Hs.
+  destruct (memZ (x / cs * cs) have) eqn:Hm; [left; reflexivity|right].
+  set (k := x / cs).
+  assert (Hk : 0 <= k) by (apply Z.div_pos; lia).
+  assert (Hkx : k * cs <= x < k * cs + cs).
+  { pose proof (Z.div_mod x cs ltac:(lia)). pose proof (Z.mod_pos_bound x cs Hcs). unfold k. nia. }
+  assert (Hb : gfloor 0 cs = 0) by (unfold gfloor; rewrite Z.quot_0_l; lia).
+  assert (He : x <= gceil (0 + n - 1) cs - 1).
+  { unfold gceil. rewrite quot_nonneg by lia.
+    pose proof (Z.div_mod (0 + n - 1) cs ltac:(lia)). pose proof (Z.mod_pos_bound (0 + n - 1) cs Hcs). nia. }
+  destruct (cache_at_covers cs size have 0 n (0 + k * cs, Z.min (0 + k * cs + cs - 1) (size - 1))) as [r [Hr [Hlo Hhi]]].
+  - rewrite Hb. apply walk_chunks_in; try lia.
+    unfold chunk_fuel.
+    assert (k <= (gceil (0 + n - 1) cs - 1 - 0) / cs).
+    { apply Z.div_le_lower_bound; lia. }
+    lia.
+  - cbn [fst]. replace (0 + k * cs) with (x / cs * cs) by (unfold k; lia). exact Hm.
+  - exists r. split; [exact Hr|]. cbn [fst snd] in Hlo, Hhi. lia.
+Qed.
+
+Lemma pieces_in : forall fuel fetch i n j,
+  0 < fetch -> 0 <= j -> (Z.to_nat j < fuel)%nat -> i + j * fetch < n ->
+  In (i + j * fetch, if i + j * fetch + fetch >? n then n - (i + j * fetch) else fetch) (pieces fuel fetch i n).
+Proof.
+  induction fuel as [|f IH]; intros fetch i n j Hf Hj Hfu Hn; [lia|].
+  cbn [pieces]. replace (i <? n) with true by (symmetry; apply Z.ltb_lt; nia).
+  destruct (Z.eq_dec j 0) as [E|E].
+  - subst j. left. replace (i + 0 * fetch) with i by lia. reflexivity.
+  - right. replace (i + j * fetch) with ((i + fetch) + (j - 1) * fetch) by lia.
+    apply IH; try lia; nia.
+Qed.
+
+(* blob.Cache(0, n) in both modes: every byte of [0, n) inside the blob is in a chunk that was cached before or
+   inside one of the requests *)
+Lemma cache_requests_cover : forall cs pcs size have n x,
+  0 < cs -> 0 <= x < n -> x < size ->
+  memZ (x / cs * cs) have = true
+  \/ exists r, In r (cache_requests cs pcs size have n) /\ fst r <= x /\ x <= fst r + snd r - 1.
+Proof.
+  intros cs pcs size have n x Hcs Hx Hs. unfold cache_requests.
+  destruct (pcs <=? cs) eqn:Ep; [apply cache_small_covers; assumption|].
+  apply Z.leb_gt in Ep.
+  destruct (memZ (x / cs * cs) have) eqn:Hm; [left; reflexivity|right].
+  set (q := pcs / cs).
+  assert (Hq : 1 <= q) by (apply Z.div_le_lower_bound; lia).
+  set (fetch := cs * q).
+  assert (Hfetch : 0 < fetch) by (unfold fetch; nia).
+  set (j := x / fetch).
+  assert (Hj : 0 <= j) by (apply Z.div_pos; lia).
+  assert (Hjx : j * fetch <= x < j * fetch + fetch).
+  { pose proof (Z.div_mod x fetch ltac:(lia)). pose proof (Z.mod_pos_bound x fetch Hfetch). unfold j. nia. }
+  set (p := 0 + j * fetch).
+  set (l := if p + fetch >? n then n - p else fetch).
+  assert (Hl : x < p + l /\ 0 < l).
+  { unfold l, p. destruct (0 + j * fetch + fetch >? n) eqn:E; [|lia]. lia. }
+  assert (Hpiece : In (p, l) (pieces (Z.to_nat (n / fetch + 2)) fetch 0 n)).
+  { unfold p, l. apply pieces_in; try lia.
+    assert (j <= n / fetch) by (apply Z.div_le_lower_bound; lia). lia. }
+  set (k := x / cs).
+  assert (Hk : 0 <= k) by (apply Z.div_pos; lia).
+  assert (Hkx : k * cs <= x < k * cs + cs).
+  { pose proof (Z.div_mod x cs ltac:(lia)). pose proof (Z.mod_pos_bound x cs Hcs). unfold k. nia. }
+  assert (Hpm : p = (j * q) * cs) by (unfold p, fetch; lia).
+  assert (Hb : gfloor p cs = p).
+  { unfold gfloor. rewrite quot_nonneg by nia. rewrite Hpm. rewrite Z.div_mul by lia. reflexivity. }
+  assert (He : x <= gceil (p + l - 1) cs - 1).
+  { unfold gceil. rewrite quot_nonneg by nia.
+    pose proof (Z.div_mod (p + l - 1) cs ltac:(lia)). pose proof (Z.mod_pos_bound (p + l - 1) cs Hcs). nia. }
+  (* x's chunk is chunk number k - j*q of the piece *)
+  set (kk := k - j * q).
+  assert (Hkk : 0 <= kk).
+  { unfold kk. enough (j * q * cs < (k + 1) * cs) by nia. nia. }
+  destruct (cache_at_covers cs size have p l (p + kk * cs, Z.min (p + kk * cs + cs - 1) (size - 1))) as [r [Hr [Hlo Hhi]]].
+  - rewrite Hb. apply walk_chunks_in; try lia; try (unfold kk; nia).
+    unfold chunk_fuel.
+    assert (kk <= (gceil (p + l - 1) cs - 1 - p) / cs).
+    { apply Z.div_le_lower_bound; [lia|]. unfold kk. nia. }
+    lia.
+  - cbn [fst]. replace (p + kk * cs) with (x / cs * cs) by (unfold kk, k; nia). exact Hm.
+  - exists r. split.
+    + apply in_flat_map. exists (p, l). split; [exact Hpiece|exact Hr].
+    + cbn [fst snd] in Hlo, Hhi. unfold kk in *. split; [nia|].
+      assert (x <= Z.min (p + (k - j * q) * cs + cs - 1) (size - 1)) by nia. lia.
+Qed.
+
+(* ------------------------------------------------------------------------------------------ *)
 (* 3/4. chunk keys and reads *)
 
 Lemma chunk_for_in : forall chunks o c, chunk_for chunks o = Some c -> In c chunks.
